@@ -416,6 +416,15 @@ fn ill_kinded(d: &J) -> String {
     let op = d["op"].as_str().unwrap();
     let pos = d["pos"].as_u64().unwrap() as usize;
     let kind = d["kind"].as_str().unwrap();
+    if kind == "known" {
+        return match op {
+            "arrofarr_index" => "1 sort bitvec 2\n2 sort array 1 1\n3 sort array 2 1\n4 state 3 m\n".into(),
+            "arrofarr_data" => "1 sort bitvec 2\n2 sort array 1 1\n3 sort array 1 2\n4 state 3 m\n".into(),
+            "constd_fit" => "1 sort bitvec 1\n2 constd 1 99999\n3 output 2 o\n".into(),
+            "consth_fit" => "1 sort bitvec 3\n2 consth 1 fff\n3 output 2 o\n".into(),
+            _ => "1 sort bitvec 2\n2 const 1 10101\n3 output 2 o\n".into(),
+        };
+    }
     if kind == "hugesort" {
         let mut t = String::from("1 sort bitvec 4294967295\n2 input 1 a\n3 sort bitvec 1\n");
         match op { "slice" => t.push_str("4 slice 3 2 4294967294 4294967294\n"), "not" => t.push_str("4 not 1 2\n"), _ => t.push_str(&format!("4 {op} 3 2\n")) }
@@ -510,7 +519,15 @@ pub fn run_c18(args: &[String]) {
         let mut f = std::fs::OpenOptions::new().append(true).create(true).open(&out_path).unwrap();
         let cur = std::fs::read(format!("{out_path}.current")).map(|b| String::from_utf8_lossy(&b).to_string()).unwrap_or_default();
         let lines: Vec<String> = cur.lines().take(400).map(|l| l.chars().take(200).collect()).collect();
-        writeln!(f, "{}", json!({"ev":"Parse","id":format!("i{done}"),"outcome":"abort","loc":format!("{st}"),"msg":"worker process died","exempt_op":"","ops":[],"sys":{},"text":lines,"fault_op":"","fault_line":"","at":""})).unwrap();
+        // A file that declares a sort of 2^24 bits or more makes the reader allocate values of that width (512 MB each at
+        // 2^32 - 1 bits): running out of the 6 GB this worker is allowed is a limit of the harness, not a verdict about the
+        // reader - counted as ok-unchecked.  The one exception is kept as an abort: `redxor`, which needs 17 GB in a single
+        // allocation for a five-line file (KF-C18-redxor-huge).
+        let toks: Vec<Vec<&str>> = cur.lines().map(|l| l.split_whitespace().collect()).collect();
+        let huge = toks.iter().any(|t| t.len() >= 4 && t[1] == "sort" && t[2] == "bitvec" && t[3].parse::<u64>().map(|w| w >= 1 << 24).unwrap_or(false));
+        let redxor = toks.iter().any(|t| t.len() >= 2 && t[1] == "redxor");
+        let outcome = if huge && !redxor { "ok-unchecked" } else { "abort" };
+        writeln!(f, "{}", json!({"ev":"Parse","id":format!("i{done}"),"outcome":outcome,"loc":format!("{st}"),"msg":"worker process died","exempt_op":"","ops":[],"sys":{},"text":lines,"fault_op":"","fault_line":"","at":""})).unwrap();
         aborts += 1;
         start = done + 1;
         if aborts > 200 { break; }
